@@ -342,7 +342,7 @@ impl Part for TwinHugePart {
             .boxed()
     }
     fn cases(&self, tier: Tier) -> u64 {
-        tier.pick(3_000, 100_000)
+        tier.pick(9_000, 100_000)
     }
     fn exec(&self, case: &TwinCase, out: &mut CaseOut) -> Result<(), Fail> {
         exec_twin(case, out)
@@ -375,7 +375,7 @@ impl Part for TwinManyEpochsPart {
             .boxed()
     }
     fn cases(&self, tier: Tier) -> u64 {
-        tier.pick(2_500, 100_000)
+        tier.pick(7_500, 100_000)
     }
     fn exec(&self, case: &TwinCase, out: &mut CaseOut) -> Result<(), Fail> {
         exec_twin(case, out)
@@ -398,7 +398,7 @@ impl Part for TwinPart {
             .boxed()
     }
     fn cases(&self, tier: Tier) -> u64 {
-        tier.pick(25_000, 1_000_000)
+        tier.pick(120_000, 1_000_000)
     }
     fn exec(&self, case: &TwinCase, out: &mut CaseOut) -> Result<(), Fail> {
         exec_twin(case, out)
